@@ -8,6 +8,7 @@ import (
 	"os"
 	"path/filepath"
 	"sort"
+	"sync"
 )
 
 // ---------------------------------------------------------------------------------------------
@@ -74,6 +75,7 @@ type Stream struct {
 	fi   *os.File
 
 	Lines int
+	mu    sync.Mutex // Count/Nontrivial/Sample/Violate may be called from several goroutines
 
 	Evaluations        int            `json:"evaluations"`
 	Distinct           map[string]int `json:"-"`
@@ -111,22 +113,32 @@ func (s *Stream) Line(op, implOut string) {
 	s.Lines++
 }
 
-func (s *Stream) Count(key string) { s.Dist[key]++ }
+func (s *Stream) Count(key string) {
+	s.mu.Lock()
+	s.Dist[key]++
+	s.mu.Unlock()
+}
 
 // Nontrivial records a canonical form of a non-trivial case; distinct ones are counted.
 func (s *Stream) Nontrivial(canon string) {
+	s.mu.Lock()
+	defer s.mu.Unlock()
 	if len(s.Distinct) < 5_000_000 {
 		s.Distinct[canon]++
 	}
 }
 
 func (s *Stream) Sample(v any) {
+	s.mu.Lock()
+	defer s.mu.Unlock()
 	if len(s.Samples) < 5 {
 		s.Samples = append(s.Samples, v)
 	}
 }
 
 func (s *Stream) Violate(kind, detail string, replay any) {
+	s.mu.Lock()
+	defer s.mu.Unlock()
 	if len(s.Violations) < 20 {
 		s.Violations = append(s.Violations, Violation{kind, detail, replay})
 	}
